@@ -309,7 +309,15 @@ theorem C07_stuck_only_when_blocked (s : St) (hr : Reachable s) (hs : Stuck s) :
       case enq tm => exact en (.slRel r) (by simp) (by simp) (by simp [step, hrn, hl, hp])
       case relk tm p =>
         exact en (.cvWoke r (!p) tm) (by simp) (by simp) (by cases p <;> simp [step, hrn, hl, hp])
-      case post b => exact en (.slRel r) (by simp) (by simp) (by simp [step, hrn, hl, hp])
+      case post b =>
+        cases hst : (isStop (s.curOp r) && isTimed (s.curOp r)) with
+        | false => exact en (.slRel r) (by simp) (by simp) (by simp [step, hrn, hl, hp, hst])
+        | true =>
+          have hc : s.curOp r = .swait true := by
+            cases hc : s.curOp r <;> simp [hc, isStop, isTimed] at hst ⊢
+            exact hst
+          exact en (.stop2 r (b || s.stopReq)) (by simp) (by simp) (by simp [step, hrn, hl, hp, hc])
+      case postS b => exact en (.slRel r) (by simp) (by simp) (by simp [step, hrn, hl, hp])
       case nDone => exact en (.slRel r) (by simp) (by simp) (by simp [step, hrn, hl, hp])
       case nLocked =>
         rw [hp] at hop
@@ -729,8 +737,9 @@ theorem C07_one_resume_per_suspend (s : St) (hr : Reachable s) (hu : s.everTimed
 
 /-! ## Stop-token wait (follow-up C07s)
 
-`condition_variable_any::wait(lock, stop_token, pred)` (operation `swait`) and `request_stop`
-(operation `stop`).  State fields used in the statements: `stopReq` (the stop-requested bit),
+`condition_variable_any::wait(lock, stop_token, pred)` (operation `swait false`), its timed
+form `wait_until/wait_for(lock, stop_token, t, pred)` (`swait true`; `isStop` = either) and
+`request_stop` (operation `stop`).  State fields used in the statements: `stopReq` (the stop-requested bit),
 `cbs` (the callback list of the stop state; a callback is named by the waiting thread that
 owns it), `cur` (the callback `request_stop` has dequeued and not yet marked finished), `kept`
 (the thread's `stop_callback` is registered), `stopDone` (the winning `request_stop` has left
@@ -743,7 +752,7 @@ its callback loop), `reqT` (the thread of that call).  Classification of program
     value returned is the current value of the predicate, the predicate holds or stop has been
     requested, and the caller owns the user lock. -/
 theorem C07_stop_wait_result (s s' : St) (hr : Reachable s) (t r : Nat)
-    (hc : s.curOp t = .swait) (h : step s (.ret t r) = some s') :
+    (hc : s.curOp t = .swait false) (h : step s (.ret t r) = some s') :
     r = b2n s.flag ∧ (s.flag = true ∨ s.stopReq = true) ∧ s.ulock = some t ∧ s'.ulock = some t := by
   have hw : isWait (s.curOp t) = true := by simp [hc, isWait]
   have hpc := ret_wait_pc hr h hw
@@ -765,7 +774,7 @@ theorem C07_stop_wait_result (s s' : St) (hr : Reachable s) (t r : Nat)
     state, or `request_stop` holds that callback and has not finished its `notify_all` (which
     by `C07_stop_callback_wakes_all` pops every waiting thread before it ends). -/
 theorem C07_stop_covered (s : St) (hr : Reachable s) (hq : s.stopReq = true) (t : Nat)
-    (hc : s.curOp t = .swait) (he : exposed (s.pc t) = true) :
+    (hc : isStop (s.curOp t) = true) (he : exposed (s.pc t) = true) :
     t ∈ s.cbs ∨ (s.cur = some t ∧ popPending (s.pc s.reqT) = true) :=
   hr.inv3.covered hq t hc he
 
@@ -774,7 +783,7 @@ theorem C07_stop_covered (s : St) (hr : Reachable s) (hq : s.stopReq = true) (t 
     cannot fall between the waiter's `stop_requested()` check and its enqueue unseen. -/
 theorem C07_stop_request_finds_callbacks (s s' : St) (hr : Reachable s) (u : Nat)
     (h : step s (.stAcq u 1) = some s') :
-    s'.stopReq = true ∧ ∀ t, s.curOp t = .swait → exposed (s.pc t) = true → t ∈ s.cbs := by
+    s'.stopReq = true ∧ ∀ t, isStop (s.curOp t) = true → exposed (s.pc t) = true → t ∈ s.cbs := by
   have hi3 := hr.inv3
   have hpre : s.stopReq = false ∧ s'.stopReq = true := by
     simp only [step] at h
@@ -803,7 +812,7 @@ theorem C07_stop_request_finds_callbacks (s s' : St) (hr : Reachable s) (u : Nat
     a stop-token wait is past its re-check and un-notified: none is parked in, or on its way
     to, `agent.suspend` without a wake-up. -/
 theorem C07_no_lost_stop (s : St) (hr : Reachable s) (hd : s.stopDone = true) (t : Nat)
-    (hc : s.curOp t = .swait) : exposed (s.pc t) = false ∧ ¬ Parked s t := by
+    (hc : isStop (s.curOp t) = true) : exposed (s.pc t) = false ∧ ¬ Parked s t := by
   have hi3 := hr.inv3
   obtain ⟨hq, hcb, hcu⟩ := hi3.doneOk hd
   have he : exposed (s.pc t) = false := by
@@ -822,18 +831,18 @@ theorem C07_no_lost_stop (s : St) (hr : Reachable s) (hd : s.stopDone = true) (t
     continuation contains an event that pops and resumes `w` (`cv.pop`/`cv.popall` + resume) or
     an agent wake-up of `w`. -/
 theorem C07_stop_wakes_each (s s1 s2 : St) (hr : Reachable s) (u w : Nat) (log : List Ev)
-    (h1 : step s (.stAcq u 1) = some s1) (hc : s.curOp w = .swait) (he : exposed (s.pc w) = true)
+    (h1 : step s (.stAcq u 1) = some s1) (hc : s.curOp w = .swait false) (he : exposed (s.pc w) = true)
     (h2 : runLog step s1 log = some s2) (hd : s2.stopDone = true) :
     ∃ e ∈ log, (∃ x z d, e = .popAll x z w d) ∨ (∃ x z d, e = .popResume x z w d) ∨ e = .woke w := by
   have hr1 : Reachable s1 := hr.step h1
-  have hs1 : s1.curOp w = .swait ∧ exposed (s1.pc w) = true := by
+  have hs1 : s1.curOp w = .swait false ∧ exposed (s1.pc w) = true := by
     rcases exposed_step s s1 hr.inv.2 _ w hc he h1 with ⟨x, z, d, h⟩ | ⟨x, z, d, h⟩ | h | h
     · simp at h
     · simp at h
     · simp at h
     · exact h
   have main : ∀ (log : List Ev) (sa : St), Reachable sa →
-      sa.curOp w = .swait ∧ exposed (sa.pc w) = true → runLog step sa log = some s2 →
+      sa.curOp w = .swait false ∧ exposed (sa.pc w) = true → runLog step sa log = some s2 →
       ∃ e ∈ log, (∃ x z d, e = .popAll x z w d) ∨ (∃ x z d, e = .popResume x z w d) ∨ e = .woke w := by
     intro log
     induction log with
@@ -841,7 +850,7 @@ theorem C07_stop_wakes_each (s s1 s2 : St) (hr : Reachable s) (u w : Nat) (log :
       intro sa hra hsa hrun
       simp at hrun
       subst hrun
-      have := (C07_no_lost_stop sa hra hd w hsa.1).1
+      have := (C07_no_lost_stop sa hra hd w (by simp [hsa.1, isStop])).1
       rw [hsa.2] at this
       simp at this
     | cons e es ih =>
@@ -865,7 +874,7 @@ theorem C07_stop_wakes_each (s s1 s2 : St) (hr : Reachable s) (u w : Nat) (log :
     finished, or (user error) queueing for the user lock that an idle thread keeps. -/
 theorem C07_stop_wait_returns (s : St) (hr : Reachable s) (hs : Stuck s) (hq : s.stopReq = true) :
     s.stopDone = true ∧
-    ∀ t, t < s.n → s.curOp t = .swait → s.pc t = .idle ∨ s.pc t = .fin ∨ BlockedOnUserLock s t := by
+    ∀ t, t < s.n → isStop (s.curOp t) = true → s.pc t = .idle ∨ s.pc t = .fin ∨ BlockedOnUserLock s t := by
   have hi3 := hr.inv3
   have hd : s.stopDone = true := by
     cases hd : s.stopDone with
@@ -894,9 +903,9 @@ theorem C07_stop_wait_returns (s : St) (hr : Reachable s) (hs : Stuck s) (hq : s
     returns, its stop callback is neither linked in the stop state nor in the hands of
     `request_stop`, and the `stop_callback` object has given up its stop state. -/
 theorem C07_stop_callback_deregistered (s s' : St) (hr : Reachable s) (t r : Nat)
-    (hc : s.curOp t = .swait) (h : step s (.ret t r) = some s') :
+    (hc : isStop (s.curOp t) = true) (h : step s (.ret t r) = some s') :
     s.kept t = false ∧ t ∉ s.cbs ∧ s.cur ≠ some t := by
-  have hpc := ret_wait_pc hr h (by simp [hc, isWait])
+  have hpc := ret_wait_pc hr h (by cases hc' : s.curOp t <;> simp [hc', isStop] at hc <;> simp [isWait])
   have hi3 := hr.inv3
   have hk : s.kept t = false := by
     cases hk : s.kept t with
@@ -915,7 +924,7 @@ theorem C07_stop_callback_deregistered (s s' : St) (hr : Reachable s) (t r : Nat
     and its finished flag is not yet set. -/
 theorem C07_stop_callback_owner_inside_wait (s : St) (hr : Reachable s) (c : Nat)
     (h : c ∈ s.cbs ∨ s.cur = some c) :
-    s.curOp c = .swait ∧ (bodyPc (s.pc c) = true ∨ dtorPc (s.pc c) = true) ∧ s.cbFin c = false := by
+    isStop (s.curOp c) = true ∧ (bodyPc (s.pc c) = true ∨ dtorPc (s.pc c) = true) ∧ s.cbFin c = false := by
   have hi3 := hr.inv3
   rcases h with h | h
   · obtain ⟨hk, hf⟩ := hi3.cbsOk c h
@@ -984,7 +993,7 @@ example : (runLog step (init 1 false)
     wakes, sees the stop bit under the internal lock, runs `~stop_callback` while thread 1 has
     not yet stored the finished flag (waits for it), returns false; `request_stop` returns true -/
 def stopLog : List Ev :=
-  [.inv 0 .lock, .ulAcq 0, .inv 0 .swait, .stop0 0 false, .stAcq 0 2, .stPush 0 false, .pred 0 false,
+  [.inv 0 .lock, .ulAcq 0, .inv 0 (.swait false), .stop0 0 false, .stAcq 0 2, .stPush 0 false, .pred 0 false,
    .slAcq 0, .stop1 0 false, .ulRel 0, .cvEnq 0 1 false, .slRel 0, .suspend 0,
    .inv 1 .stop, .stAcq 1 1, .stDeq 1 0 false, .slAcq 1, .cvAll 1 1, .popAll 1 0 0 false, .slRel 1,
    .woke 0, .slAcq 0, .cvWoke 0 false false, .slRel 0, .ulAcq 0, .pred 0 false, .slAcq 0, .stop1 0 true,
@@ -996,7 +1005,7 @@ example : (runLog step (init 2 false) stopLog).isSome = true := by decide
 /-- the stop request falls between the waiter's re-check (S1) and its enqueue: the callback
     queues for the internal lock, finds the waiter enqueued and pops it before it suspends -/
 example : (runLog step (init 2 false)
-    [.inv 0 .lock, .ulAcq 0, .inv 0 .swait, .stop0 0 false, .stAcq 0 2, .stPush 0 false, .pred 0 false,
+    [.inv 0 .lock, .ulAcq 0, .inv 0 (.swait false), .stop0 0 false, .stAcq 0 2, .stPush 0 false, .pred 0 false,
      .slAcq 0, .stop1 0 false,
      .inv 1 .stop, .stAcq 1 1, .stDeq 1 0 false,
      .ulRel 0, .cvEnq 0 1 false, .slRel 0,
@@ -1009,17 +1018,28 @@ example : (runLog step (init 2 false)
     stop requested during the registration: the callback runs on the registering thread -/
 example : (runLog step (init 2 false)
     [.inv 1 .stop, .stAcq 1 1, .stRsDone 1, .ret 1 1,
-     .inv 0 .lock, .ulAcq 0, .inv 0 .swait, .stop0 0 true, .pred 0 false, .ret 0 0]).isSome = true := by decide
+     .inv 0 .lock, .ulAcq 0, .inv 0 (.swait false), .stop0 0 true, .pred 0 false, .ret 0 0]).isSome = true := by decide
 
 example : (runLog step (init 2 false)
-    [.inv 0 .lock, .ulAcq 0, .inv 0 .swait, .stop0 0 false,
+    [.inv 0 .lock, .ulAcq 0, .inv 0 (.swait false), .stop0 0 false,
      .inv 1 .stop, .stAcq 1 1, .stRsDone 1, .ret 1 1,
      .stSeen 0, .slAcq 0, .cvAll 0 0, .slRel 0, .stInFin 0, .pred 0 false, .slAcq 0, .stop1 0 true, .slRel 0,
      .ret 0 0]).isSome = true := by decide
 
+/-- timed stop-token wait: enqueued with a deadline, the stop callback marks it signalled (the
+    resume is dropped by the deadline poller), it wakes at the deadline, `should_stop` is true
+    (stop requested), the predicate's value is returned after `~stop_callback` -/
+example : (runLog step (init 2 false)
+    [.inv 0 .lock, .ulAcq 0, .inv 0 (.swait true), .stop0 0 false, .stAcq 0 2, .stPush 0 false, .pred 0 false,
+     .slAcq 0, .stop1 0 false, .ulRel 0, .cvEnq 0 1 true, .slRel 0, .sleep 0,
+     .inv 1 .stop, .stAcq 1 1, .stDeq 1 0 false, .slAcq 1, .cvAll 1 1, .popAll 1 0 0 true, .slRel 1,
+     .stFin 1 0 false, .stAcq 1 0, .stRsDone 1, .ret 1 1,
+     .timeout 0, .slAcq 0, .cvWoke 0 false true, .stop2 0 true, .slRel 0, .ulAcq 0, .pred 0 false,
+     .stAcq 0 0, .stUnlink 0 false, .stSelf 0 false, .stWaited 0, .ret 0 0]).isSome = true := by decide
+
 /-- predicate satisfied without a stop request: the waiter unlinks its callback itself -/
 example : (runLog step (init 1 true)
-    [.inv 0 .lock, .ulAcq 0, .inv 0 .swait, .stop0 0 false, .stAcq 0 2, .stPush 0 false, .pred 0 true,
+    [.inv 0 .lock, .ulAcq 0, .inv 0 (.swait false), .stop0 0 false, .stAcq 0 2, .stPush 0 false, .pred 0 true,
      .stAcq 0 0, .stUnlink 0 true, .ret 0 1]).isSome = true := by decide
 
 end PikaVerif.C07
